@@ -2,6 +2,7 @@
 //! vh — verification harness: generates cases, runs the real engeom code, prints one line per
 //! case:  op | inputs for the Lean model | implementation result | oracle verdict
 mod util;
+mod c12;
 mod c16;
 mod c17;
 mod c18;
@@ -21,6 +22,11 @@ fn main() {
     std::panic::set_hook(Box::new(|_| {}));
     let mut rng = Rng::new(seed ^ (prop.bytes().fold(0u64, |a, b| a.wrapping_mul(131).wrapping_add(b as u64))));
     match prop {
+        "C12" => {
+            let slice = (seed % 1000) as usize;
+            let thorough = args.iter().any(|a| a == "--thorough");
+            c12::run(&mut rng, n, slice % 16, 16, thorough)
+        }
         "C16" => c16::run(&mut rng, n),
         "C17" => c17::run(&mut rng, n),
         "C18" => c18::run(&mut rng, n),
